@@ -10,6 +10,15 @@ Contracts evaluated on the real `bnp.open(path).read_chunks(k)` / `.read()` (and
   whole-read     read() gives the entries the generator wrote (reference = plain Python values, refmodels/c01_files.py)
   read_chunks    a read that completes gives, chunk after chunk, exactly those entries (field by field), no chunk
                  is empty; an exception is accepted only when the chunk size cannot hold the longest entry
+Two further size classes (refmodels/c01_files.py) widen the entry generators beyond {1, 2, 5}:
+  0  FASTA / FASTQ records of a ZERO-LENGTH read (empty sequence line, empty quality line) at every position of the
+     file, in particular as the LAST record (file ends in '+\n\n' / '>x\n\n'); only with a final newline when the
+     last record is the empty one (without it the file could not be told from a truncated one)
+  9  delimited formats: 9-digit coordinates next to 1- and 2-digit ones in the same column with 1-letter names
+     ('a\t2\t3' after 'b\t234567890\t345678901'), the wide line first, so that read() sees the short line far from the
+     start of its buffer while a chunk may begin with it; files of up to 6 lines, every chunk size in the thorough tier
+Failures of these cases carry the scope in their signature (zero-length-record / zero-length-last-record /
+mixed-width-numbers).
 """
 import gzip
 import io
@@ -124,6 +133,12 @@ class FileCase:
         self.body_size = len(self.data) - self.body
         self.max_entry = max([len(e) for e in self.ebytes] + [0])
         self.tail = len(self.ebytes[-1]) if self.ebytes else 0
+        # scope marker of the cases beyond the size classes {1, 2, 5}: part of every signature of such a case
+        self.scope = ""
+        if ref.ZERO in self.sizes:
+            self.scope = "zero-length-last-record:" if self.sizes[-1] == ref.ZERO else "zero-length-record:"
+        elif ref.WIDE in self.sizes:
+            self.scope = "mixed-width-numbers:"
 
     def chunk_sizes(self, level):
         """"all": 1..size+2; "near": 1..4, divisors and -1/+1/+2 neighbours of every size/offset in the file;
@@ -167,7 +182,7 @@ class FileCase:
         return c
 
     def sig_tail(self, comp):
-        return "%s:%s:%s%s" % (self.fmt, "plain" if comp == "plain" else comp,
+        return "%s%s:%s:%s%s" % (self.scope, self.fmt, "plain" if comp == "plain" else comp,
                                "final-newline" if self.final_newline else "no-final-newline", ":crlf" if self.crlf else "")
 
 
@@ -183,7 +198,7 @@ def check_whole(col, fc, src, comp, lazy, via):
             r.close()
     except Exception as e:
         # one signature per (format, line end): the whole region (every chunk size, plain and gzip) fails alike
-        col.fail("whole-read:exception:%s:%s%s" % (type(e).__name__, fc.fmt, ":crlf" if fc.crlf else ""), case,
+        col.fail("whole-read:exception:%s:%s%s%s" % (type(e).__name__, fc.scope, fc.fmt, ":crlf" if fc.crlf else ""), case,
                  "read() raised %s: %s\n%s" % (type(e).__name__, str(e)[:150], traceback.format_exc()[-350:]))
         return None, type(e).__name__
     if not same_entries(got, fc.refs, fc.spec):
